@@ -140,7 +140,12 @@ def judge(kind, m, l, a):
     got = T.parse_tx_answer(a) if kind == "tx" else T.parse_rx_answer(a)
     if got is None:
         return "a valid message does not survive gen_msg/parse_msg: %s" % a
-    want = T.carried_tx(m) if kind == "tx" else T.carried_rx(m)
+    try:
+        want = T.carried_tx(m) if kind == "tx" else T.carried_rx(m)
+    except (KeyError, ValueError, TypeError):
+        # the real code accepted a message outside the protocol ranges (that is C13's matter) for which no reference decoding
+        # exists (e.g. a version-0 burst length the version cannot tell apart): it did decode, nothing to compare with
+        return None
     if got.line() != want.line():
         diff = [f for f in want.__slots__ if getattr(got, f) != getattr(want, f)]
         return "decoded message differs from the encoded one in %s" % ",".join(diff)
@@ -276,9 +281,14 @@ def search(run, corr, deep):
         mm = shrink_burst(k, m, l, "legacy padding" in why)
         a2 = vf.run_lines(T.HARNESS, ["trxd.%s.rt %d %s" % (k, l, mm.line())])[0]
         w = mm.asdict()
-        want = T.carried_tx(mm) if k == "tx" else T.carried_rx(mm)
-        w.update({"line": mm.line(), "kind": "roundtrip", "legacy": l, "what": judge(k, mm, l, a2) or why, "decoded": a2,
-                  "expected": want.line(), "failing_cases_in_this_run": len(fails)})
+        try:
+            expected = (T.carried_tx(mm) if k == "tx" else T.carried_rx(mm)).line()
+            what = judge(k, mm, l, a2) or why
+        except (KeyError, ValueError, TypeError):
+            # a message outside the protocol ranges that the real code nevertheless accepted: there is no reference decoding
+            expected, what = mm.line(), why
+        w.update({"line": mm.line(), "kind": "roundtrip", "legacy": l, "what": what, "decoded": a2,
+                  "expected": expected, "failing_cases_in_this_run": len(fails)})
         found += run.report_witness(w)
     return found
 
